@@ -13,9 +13,10 @@ Model driver for C11.  One history per line:
 or one GENERATED history per line (large structured histories; harness/c11.cpp and tools/props/c11.py
 synthesize the same history from the same parameters):
 
-  G <variant> <relmask> <memmask> <cb> <maxbuf> <wr> <fixed> | <shape> <n> <k> <ro> <sg> <st> <kd> <miss> <dup> <extra> <ni> <q> <seed> | E
+  G <variant> <relmask> <memmask> <cb> <maxbuf> <wr> <fixed> | <shape> <n> <k> <ro> <sg> <st> <kd> <miss> <dup> <extra> <ni> <q> <seed> [<ak> <am>] | E
 
-  n members M(0..n-1): magnitude 10 + j*st, negative iff sg=1 | sg=2 ∧ j%3=0 | sg=3 ∧ j<2; kind w (kd=0), nwr[j%3] (kd=1), n (2), r (3)
+  n members M(0..n-1): magnitude 10 + j*st (ak = 0 or absent) or 10 + (j mod am)*st + (j div am)*2^ak (the ID ALPHABET
+  dimension: members j, j+am, j+2am, … have ids that differ by multiples of 2^ak), negative iff sg=1 | sg=2 ∧ j%3=0 | sg=3 ∧ j<2; kind w (kd=0), nwr[j%3] (kd=1), n (2), r (3)
   shape 0 share    : n*k relations, relation i = [M(i mod n)]          1 shareadj : n*k relations, relation i = [M(i div k)]
         2 window   : n relations, relation i = [M(i..i+k-1 mod n)]     3 huge     : relation 0 = all members, relation i≥1 = [M((i-1)k)]
         4 pairs    : n relations, relation i = [M(i), M(n-1-i)]         5 random   : n relations, 1..k members chosen by hash
@@ -213,6 +214,8 @@ structure GSpec where
   ni : Nat
   q : Nat
   seed : UInt64
+  ak : Nat := 0
+  am : Nat := 1
 
 namespace GSpec
 open Digest
@@ -224,7 +227,8 @@ def kindOf (g : GSpec) (j : Nat) : Kind :=
   | 2 => .node
   | _ => .relation
 
-def mag (g : GSpec) (j : Nat) : Nat := 10 + j * g.st
+def mag (g : GSpec) (j : Nat) : Nat :=
+  if g.ak == 0 then 10 + j * g.st else 10 + (j % g.am) * g.st + (j / g.am) * 2 ^ g.ak
 
 def neg (g : GSpec) (j : Nat) : Bool :=
   g.sg == 1 || (g.sg == 2 && j % 3 == 0) || (g.sg == 3 && j < 2)
@@ -319,13 +323,18 @@ end GSpec
 
 def runGen (secs : List (List String)) : Option String := do
   match secs with
-  | ("G" :: variant :: rm :: mm :: cb :: maxbuf :: wr :: fixed :: []) ::
-      [shape, n, k, ro, sg, st, kd, miss, dup, extra, ni, q, seed] :: _ =>
+  | ("G" :: variant :: rm :: mm :: cb :: maxbuf :: wr :: fixed :: []) :: ps :: _ =>
     let cfg := mkCfg variant (← rm.toNat?) (← mm.toNat?) (cb == "1") (← maxbuf.toNat?) (← wr.toNat?) (fixed == "1")
-    let g : GSpec := { shape := ← shape.toNat?, n := ← n.toNat?, k := ← k.toNat?, ro := ← ro.toNat?, sg := ← sg.toNat?,
-                       st := ← st.toNat?, kd := ← kd.toNat?, miss := ← miss.toNat?, dup := ← dup.toNat?, extra := ← extra.toNat?,
-                       ni := ← ni.toNat?, q := ← q.toNat?, seed := UInt64.ofNat (← seed.toNat?) }
-    if g.n == 0 || g.k == 0 then none
+    let vs ← ps.mapM (·.toNat?)
+    let g : GSpec ← match vs with
+      | [shape, n, k, ro, sg, st, kd, miss, dup, extra, ni, q, seed] =>
+        some { shape, n, k, ro, sg, st, kd, miss, dup, extra, ni, q, seed := UInt64.ofNat seed }
+      | [shape, n, k, ro, sg, st, kd, miss, dup, extra, ni, q, seed, ak, am] =>
+        some { shape, n, k, ro, sg, st, kd, miss, dup, extra, ni, q, seed := UInt64.ofNat seed, ak, am }
+      | _ => none
+    -- ids must stay inside int64_t (the same guard as harness/c11.cpp)
+    if g.n == 0 || g.k == 0 || g.am == 0 || g.ak > 62 ||
+       (g.ak > 0 && ((g.n - 1) / g.am ≥ 2 ^ (63 - g.ak) || 10 + g.am * g.st + 1 ≥ 2 ^ g.ak)) then none
     let rels := g.rels
     let ops := g.ops
     let hd := GSpec.histDigest rels ops
